@@ -71,8 +71,12 @@ class FIBDemux(Device):
             try:
                 if not self.outs:
                     raise KeyError(f'no output for flow {flow_id}')
-                self.outs[self._fib[packet.flow_id]].put(packet)
+                out = self.outs[self._fib[packet.flow_id]]
             except (KeyError, IndexError, ValueError) as exc:
                 print("FIB Demux Error: " + str(exc))
                 if self.default_out:
                     self.default_out.put(packet)
+            else:
+                # only the table look-up is guarded: an error raised by the
+                # next stage is that stage's, and the packet has one output
+                out.put(packet)
